@@ -546,6 +546,22 @@ class Gen:
                 self.count("R8_param_pattern")
         if pre_lets:
             params = ",".join(plist)
+        # R11: `name: impl Trait` parameters -> a named generic parameter (so contracts can mention the type)
+        if re.search(r":\s*impl\s", params):
+            plist2 = split_top(params)
+            gens = []
+            for n, prm in enumerate(plist2):
+                m = re.match(r"(\s*\w+\s*:\s*)impl\s+(.+?)\s*$", prm, re.S)
+                if m:
+                    gname = f"ImplArg{n}"
+                    gens.append(f"{gname}: {m.group(2)}")
+                    plist2[n] = f"{m.group(1)}{gname}"
+                    self.count("R11_impl_trait_arg")
+            params = ",".join(plist2)
+            if pre.rstrip().endswith(">"):
+                pre = pre.rstrip()[:-1] + ", " + ", ".join(gens) + ">"
+            else:
+                pre = pre.rstrip() + "<" + ", ".join(gens) + ">"
         retname = c.ret or "r"
         sig_out = pre + "(" + params + ")"
         if ret:
@@ -729,6 +745,10 @@ class Gen:
             body = "".join(out)
             # body starts with '{'
             body = "{ let mut this = self;" + body[1:]
+        # R12: `for PAT in EXPR { BODY }` -> explicit `loop { match iter_next(..) { .. } }` (Rust's own
+        # desugaring), applied only where the side-car asks for it (generic iterators)
+        if c.mode == "desugar-for":
+            body = self.desugar_for(body, relsrc, key)
         # loops
         if c.loops:
             body = self.insert_loop_clauses(body, relsrc, key, c)
@@ -749,6 +769,35 @@ class Gen:
             body = "\n".join(lines)
             self.count("hint_inserted")
         return body
+
+    def desugar_for(self, body, relsrc, key):
+        toks = lex(body)
+        out = body
+        fors = [i for i, t in enumerate(toks) if t.kind == "ident" and t.text == "for"]
+        if len(fors) != 1:
+            raise ExtractError(f"{relsrc}: {key}: desugar-for expects exactly one for loop, found {len(fors)}")
+        i = fors[0]
+        j = i + 1
+        in_pos = None
+        while j < len(toks):
+            tt = toks[j]
+            if tt.kind == "punct" and tt.text in "([":
+                j = match_close(toks, j)
+            elif tt.kind == "ident" and tt.text == "in" and in_pos is None:
+                in_pos = j
+            elif tt.kind == "punct" and tt.text == "{":
+                break
+            j += 1
+        if in_pos is None:
+            raise ExtractError(f"{relsrc}: {key}: malformed for loop")
+        close = match_close(toks, j)
+        pat = body[toks[i].end:toks[in_pos].start].strip()
+        expr = body[toks[in_pos].end:toks[j].start].strip()
+        inner = body[toks[j].end:toks[close].start]
+        new = (f"{{ let mut iter__ = iter_begin({expr}); loop {{ match iter_next(&mut iter__) {{ None => {{ break; }} Some({pat}) => {{"
+               f"{inner}}} }} }} }}")
+        self.count("R12_for_desugar")
+        return body[:toks[i].start] + new + body[toks[close].end:]
 
     def apply_regex_rewrites(self, body, relsrc, key, c):
         for name, rx, rep in REGEX_REWRITES:
